@@ -32,7 +32,8 @@ func stdFSPopulation(t *testing.T) *fsPopulation {
 		w1.Accounts = append(w1.Accounts, fmt.Sprintf("Account %d", i))
 	}
 	w2 := WalletSpec{Name: "Wallet 2", Kind: "nd", Accounts: []string{"Account 0", "Account 1", "Account 0/sub"}}
-	return newFSPopulation(t, "fsstd", []WalletSpec{w1, w2, {Name: "Wallet 3", Kind: "distributed"}})
+	// as in the in-process standard population, the first key is this instance's share of a threshold key
+	return newFSPopulation(t, "fsstd", []WalletSpec{{Name: "Wallet 3", Kind: "distributed", Accounts: []string{"Shared validator"}}, w1, w2})
 }
 
 // daemonLogLevel draws the daemon's log-level setting (decision 0 = the default).
@@ -60,7 +61,7 @@ func runDaemonHist(t *testing.T, rc *RunCtx, prop string) {
 	InitBLS()
 	ch := rc.Ch
 	pop := stdFSPopulation(t)
-	all := `{"client-test01": {"Wallet 1": ["All"], "Wallet 2": ["All"]}}`
+	all := `{"client-test01": {"Wallet 1": ["All"], "Wallet 2": ["All"], "Wallet 3": ["All"]}}`
 	how := ch.Pick(6, 0)
 	home, envOnly := how == 3, how == 4
 	d := NewDaemon(t, rc, DaemonCfg{Pop: pop, PermissionsJSON: all, Pruning: ch.Pick(2, 0) == 1, HomeConfig: home, EnvConfig: envOnly, LogLevel: daemonLogLevel(rc)})
@@ -706,7 +707,7 @@ func runDaemonInterchange(t *testing.T, rc *RunCtx, prop string) {
 	InitBLS()
 	ch := rc.Ch
 	pop := stdFSPopulation(t)
-	all := `{"client-test01": {"Wallet 1": ["All"], "Wallet 2": ["All"]}}`
+	all := `{"client-test01": {"Wallet 1": ["All"], "Wallet 2": ["All"], "Wallet 3": ["All"]}}`
 	d := NewDaemon(t, rc, DaemonCfg{Pop: pop, PermissionsJSON: all, HomeConfig: ch.Pick(3, 0) == 2, RelativeStorage: true})
 	defer d.Close()
 	if err := d.Start(); err != nil {
